@@ -67,7 +67,7 @@ func (g *GenSpec) String() string {
 	switch g.K {
 	case "intrange", "slicen", "distinctn", "mapofn":
 		s += fmt.Sprintf("(%d,%d)", g.A, g.B)
-	case "smallrange", "stringn", "matching", "distinct", "perm", "sampled", "mapof", "oneof":
+	case "smallrange", "stringn", "matching", "distinct", "perm", "sampled", "mapof", "oneof", "makepair":
 		s += fmt.Sprintf("(%d)", g.A)
 	}
 	if g.Sub != nil {
@@ -207,6 +207,10 @@ type Prog struct {
 	NSites  int
 	NCustom int
 	Customs []*CustomSpec
+	// SiteStyle: how the failure sites of the program differ as call stacks. 0: distinct leaf functions; 1: one and
+	// the same deep call chain entered from distinct lines (the distinguishing frame is ~14 frames away from the
+	// panic); 2: distinct value-receiver methods of a type named "runtime", called from one line
+	SiteStyle int
 }
 
 func (p *Prog) String() string {
@@ -279,6 +283,7 @@ type Profile struct {
 	BigLogs     bool
 	FailCondEasy bool // conditions likely true
 	CustomFail  int   // percent of custom specs that can fail
+	SiteStyles  bool  // programs with >= 2 failure sites may use the call-stack styles 1 and 2 (Prog.SiteStyle)
 }
 
 type progGen struct {
@@ -308,7 +313,41 @@ func GenProg(t *Tape, pf *Profile) *Prog {
 		g.p.Body = append(g.p.Body, g.condFail(vars, "body"))
 	}
 	g.p.NSites = g.fails
+	if g.fails >= 2 && pf.SiteStyles {
+		g.p.SiteStyle = t.Weighted("prog.sitestyle", 10, 2, 1)
+		if g.p.SiteStyle == 2 {
+			coerceKinds(g.p.Body)
+			for _, c := range g.p.Customs {
+				c.FKind = coerceKind(c.FKind)
+				coerceKinds(c.Body)
+			}
+		}
+	}
 	return g.p
+}
+
+// coerceKind: the three failure kinds the sites of style 2 implement.
+func coerceKind(k FailKind) FailKind {
+	switch {
+	case k.IsPanic():
+		return FKPanicStr
+	case k.Fatal():
+		return FKFatalf
+	}
+	return FKErrorf
+}
+
+func coerceKinds(body []*Stmt) {
+	for _, s := range body {
+		if s.K == SFail {
+			s.FKind = coerceKind(s.FKind)
+		}
+		coerceKinds(s.Body)
+		coerceKinds(s.Inv)
+		for i := range s.Acts {
+			coerceKinds(s.Acts[i].Body)
+		}
+	}
 }
 
 func (g *progGen) newVar() int { v := g.p.NVars; g.p.NVars++; return v }
@@ -449,6 +488,9 @@ func (g *progGen) genSpec(depth int) *GenSpec {
 		return &GenSpec{K: "perm", A: t.Int("gen.perm", 0, 6)}
 	case 7:
 		if t.Chance("gen.makemap", 20) {
+			if t.Chance("gen.makepair", 50) {
+				return &GenSpec{K: "makepair", A: t.Pick("gen.pairtype", 2)}
+			}
 			return &GenSpec{K: "makemap"}
 		}
 		if t.Chance("gen.mapbool", 50) {
